@@ -12,8 +12,10 @@ PROP_FILE = "Properties/C12.v"
 
 TRUSTED = [
     "translator/c12.py (constructor and setter guards of Geometry/Characteristics/Environment/APDCharacteristics -> "
-    "Gen_C12.src_guards; count checks of _build_configuration and Configuration.__post_init__ -> src_checks; "
-    "shape checks of the to_* builders and the dispatch chain; fails closed on any other shape)",
+    "Gen_C12.src_guards; what they store of the value -> src_stores; count checks of _build_configuration and "
+    "Configuration.__post_init__ with the way each counts a section -> src_checks_doc / src_checks_built; the order of "
+    "the two if/elif chains -> src_mode_dispatch / src_detector_dispatch; shape checks of the to_* builders; fails "
+    "closed on any other shape)",
     "the LITERAL table Model.Config.documented (documented ranges, from the property text, docstrings, error messages) "
     "and Model.Config.readout_settings",
     "translator/c12.py on pyxel/exposure/readout.py: constructor parameters of Readout and the settings Readout.replace "
@@ -28,7 +30,8 @@ CLS = {"Geometry": "CGeometry", "Characteristics": "CCharacteristics", "Environm
        "APDCharacteristics": "CAPDCharacteristics"}
 # "obsrun": the value is one point of a REAL observation (pyxel.run_mode on an Observation that sweeps the field,
 # sequentially or with dask); accepted = the run completes.  It is the sweep path of the model.
-PATH = {"ctor": "PCtor", "yaml": "PYaml", "attr": "PAttr", "sweep": "PSweep", "obsrun": "PSweep"}
+PATH = {"ctor": "PCtor", "yaml": "PYaml", "attr": "PAttr", "sweep": "PSweep", "obsrun": "PSweep",
+        "fromdict": "PFromDict"}
 
 # used ONLY to aim the generator and to classify a failing value; the decision is taken inside Coq against
 # Model.Config.documented.  (cls, field, lo, hi, integer-ish, sequence length)
@@ -123,7 +126,8 @@ def np_values(r, lo, hi, seqlen, small):
     if seqlen is not None:
         return [npi(0, idt()), npi(2, idt()), npf(5.0), npf(0.0), npnan(), npf(2.0, "float64"), PINF]
     if small:
-        return [npi(-1, idt()), npi(0, idt()), npi(3, idt()), npi(r.randrange(1, 9), idt()), npnan(), PINF, NINF]
+        return [npi(-1, idt()), npi(0, idt()), npi(3, idt()), npi(r.randrange(1, 9), idt()), npnan(), PINF, NINF,
+                npf(0.5), npf(r.randrange(1, 8) + 0.25), npf(0.75, "float64"), npf(-0.5)]
     vs = [npnan(), npnan("float64"), PINF, NINF, npi(0, idt()), npf(0.0)]
     for b in [b for b in (lo, hi) if b is not None]:
         vs += [npi(b, idt()), npi(b - 1, idt()), npi(b + 1, idt())]
@@ -162,12 +166,24 @@ def gen_values(r, lo, hi, integer, seqlen, small, n_random):
         for _ in range(n_random):
             pts.add(r.choice([r.uniform(lo, lo + 50), r.uniform(lo - 50, lo), float(r.randrange(int(lo) - 3, int(lo) + 40))]))
     pts |= {0.0, -0.0, 2.0 ** -80, -(2.0 ** -80), -1.0, 1.0}
+    if integer:
+        # integer-like quantities (array sizes, ADC bits): values that are NOT whole numbers - strictly between 0 and 1,
+        # and between each bound and the next integer on both sides; a conversion to int on the way in (before or
+        # after the check) shows on exactly these
+        pts |= {0.5, 0.25, 0.75, 0.125, 1.0 - 2.0 ** -40, 1.5, -0.5, -0.25}
+        for b in bounds:
+            pts |= {float(b) + 0.25, float(b) + 0.75, float(b) - 0.25, float(b) - 0.75, float(b) + 1.5,
+                    float(b) + 1.0 - 2.0 ** -30}
+        for _ in range(max(2, n_random)):
+            pts.add(r.randrange(-2, 9 if small else int(hi) + 3) + r.choice([0.125, 0.25, 0.5, 0.75, 0.875]))
     if not small:
         pts |= {2.0 ** 90, -(2.0 ** 90)}
     if small:
-        # array sizes: only small integers (the detector allocates row x col frames later on, and other code
-        # than the guard insists on int there)
-        return [NAN, NONE] + [vi(n) for n in (-7, -1, 0, 1, 2, 5, 9)] + [vi(r.randrange(-20, 30)) for _ in range(n_random)]
+        # array sizes: small numbers only (the detector allocates row x col frames later on); whole numbers as python
+        # ints, the fractional ones (and a whole number carried by a float) as floats
+        frac = sorted(p for p in pts if -10 < p < 12 and (p != int(p) or p in (2.0, 7.0)))
+        return ([NAN, NONE] + [vi(n) for n in (-7, -1, 0, 1, 2, 5, 9)]
+                + [vi(r.randrange(-20, 30)) for _ in range(n_random)] + [vf(p) for p in frac])
     vs += [vf(p) for p in sorted(pts, key=lambda z: (z, math.copysign(1, z)))]
     return vs
 
@@ -211,6 +227,15 @@ def gen_guard_cases(ctx: Ctx, n_random: int, n_obsrun: int = 6):
                 if path == "yaml" and (x["t"] != "inf" or small):
                     continue  # a YAML document cannot carry a numpy scalar
                 cases.append(dict(k="guard", cls=cls, field=field, path=path, det=r.choice(dets), x=x))
+        # <Class>.from_dict: python numbers, NaN, None and sequences (what a file can hold)
+        if cls != "Environment":
+            seen = set()
+            for x in gen_values(r, lo, hi, integer, seqlen, small, max(1, n_random // 2)):
+                key = json.dumps(x, sort_keys=True)
+                if key in seen or x["t"] == "inf":
+                    continue
+                seen.add(key)
+                cases.append(dict(k="guard", cls=cls, field=field, path="fromdict", det=r.choice(dets), x=x))
         # real observation runs over the field: a few values per field, sequential and dask
         plain_vals = [x for x in gen_values(r, lo, hi, integer, seqlen, small, 2)
                       if x["t"] in ("int", "float", "nan") or (x["t"] == "seq" and seqlen is not None)]
@@ -244,6 +269,9 @@ def classify_value(c):
     if t == "inf":
         return "above" if x["pos"] else "below"
     q = value_q(x)
+    if row[4] and q.denominator != 1:
+        return "fractional-" + ("below" if q < lo or (q == lo and field in ("row", "col")) else
+                                "above" if hi is not None and q > hi else "inside")
     if q == 0 and lo > 0:
         return "zero"
     if q < lo or (q == lo and field in ("row", "col", "temperature", "wavelength")):
@@ -253,23 +281,52 @@ def classify_value(c):
     return "inside"
 
 
+def cstored(o) -> str:
+    """what the field holds after an accepted value, as read back by the driver (None: not read back / not a value of
+    the domain)"""
+    sv = o.get("stored_v") if o.get("accepted") else None
+    if not sv or sv.get("t") == "other":
+        return "None"
+    return f"(Some {cvalue(sv)})"
+
+
 def emit_guard_file(pairs) -> str:
     rows = []
     for c, o in pairs:
+        is_int = c["x"]["t"] in ("int", "npint")
         rows.append(f"GCase ({CLS[c['cls']]}, {core.cstr(c['field'])}) {PATH[c['path']]} {cvalue(c['x'])} "
-                    f"{core.cbool(o['accepted'])}")
+                    f"{core.cbool(is_int)} {core.cbool(o['accepted'])} {cstored(o)}")
     body = ";\n  ".join(rows)
     return (HEAD + f"Definition cases : list gcase := [\n  {body}\n].\n"
-            "Eval vm_compute in g_mismatches src_guards cases.\nEval vm_compute in g_violations cases.\n")
+            "Eval vm_compute in g_mismatches src_guards src_stores cases.\nEval vm_compute in g_violations cases.\n")
 
 
 HEAD = ("From Coq Require Import QArith ZArith List String.\nFrom PyxelV Require Import Model.Config.\n"
         "From PyxelGen Require Import Gen_C12.\nImport ListNotations.\nOpen Scope Z_scope.\n")
 
 
+def coq_sees_stored(o) -> bool:
+    """is the value read back one that Model.Config.gcase_violates judges (a number, NaN, inf, None)"""
+    sv = o.get("stored_v") or {}
+    return sv.get("t") in ("int", "float", "nan", "inf", "none", "npint", "npfloat", "npnan")
+
+
+def stored_violation(c, o) -> Violation:
+    sv = o.get("stored_v")
+    holds = f": the field then holds {show_value(sv)}" if sv and sv.get("t") != "other" else ""
+    return Violation(
+        clause="stored", case=c, observed=o,
+        expected="an accepted value is the value of the setting (so the setting satisfies the documented limit)",
+        what=f"{c['cls']}.{c['field']} via {c['path']}: value {show_value(c['x'])} ({classify_value(c)}) accepted but not "
+             f"stored{holds}",
+        sig=dict(clause="stored", field=f"{c['cls']}.{c['field']}", path=c["path"]))
+
+
 def guard_violation(c, o) -> Violation:
     kind = classify_value(c)
     acc = o["accepted"]
+    if acc and not o.get("stored", True) and kind in ("inside", "fractional-inside", "none", "sequence"):
+        return stored_violation(c, o)
     what = (f"{c['cls']}.{c['field']} via {c['path']}: value {show_value(c['x'])} ({kind}) is "
             f"{'accepted' if acc else 'refused'}, the documented range says the opposite")
     sig = dict(clause="same_limits", field=f"{c['cls']}.{c['field']}", path=c["path"], value=kind,
@@ -304,36 +361,177 @@ MODES = ["exposure", "observation", "calibration"]
 DETS = ["ccd_detector", "cmos_detector", "mkid_detector", "apd_detector"]
 
 
+STATES = ["absent", "filled", "null", "empty"]     # nothing | a filled section | `key:` | `key: {}`
+SSTATE = {"filled": "SFilled", "null": "SNull", "empty": "SEmptyMap"}
+
+
+def key_case(r, states: dict, order=None):
+    """a document that holds `states[k]` under each key k (absent keys left out) plus a pipeline, the sections in the
+    given order (default: shuffled - the order of the sections in the file must not matter)"""
+    body = [k for k in MODES + DETS if states.get(k, "absent") != "absent"]
+    if order == "reversed":
+        body.reverse()
+    elif order != "listed":
+        r.shuffle(body)
+    present = ["pipeline"] + body if r.random() < 0.5 else body + ["pipeline"]
+    return dict(k="keys", present=present, states={k: states[k] for k in body if states[k] != "filled"})
+
+
+def state_tuples(keys):
+    import itertools
+    return [dict(zip(keys, t)) for t in itertools.product(STATES, repeat=len(keys))]
+
+
 def gen_key_cases(ctx: Ctx):
+    """(a) all 128 subsets of the 3 mode and 4 detector keys, every section filled;
+    (b) EVERY assignment of {absent, filled, `key:`, `key: {}`} to the three mode keys next to one filled detector, and
+        to the four detector keys next to one filled mode - an empty section beside a filled one, two empty ones, an
+        empty one alone ... - each document with two or more keys of the group in both orders;
+    (c) empty sections in both groups at once (sampled; thorough tier: the full product 64 x 256)."""
     r = ctx.rng("keys")
     cases = []
+    d = core.VERIF / "harness" / "corpus" / "C12"
+    for f in sorted(d.glob("*.json")) if d.exists() else []:      # corpus first
+        for c in json.loads(f.read_text()).get("cases", []):
+            if c.get("k") == "keys":
+                cases.append(dict(k="keys", present=list(c["present"]), states=dict(c.get("states") or {})))
     for m in range(8):
         for d in range(16):
-            keys = ["pipeline"] + [MODES[i] for i in range(3) if m >> i & 1] + [DETS[i] for i in range(4) if d >> i & 1]
-            body = keys[1:]
-            r.shuffle(body)     # the order of the sections in the file must not matter
-            cases.append(dict(k="keys", present=["pipeline"] + body if r.random() < 0.5 else body + ["pipeline"]))
-    return cases
+            st = {MODES[i]: "filled" for i in range(3) if m >> i & 1}
+            st.update({DETS[i]: "filled" for i in range(4) if d >> i & 1})
+            cases.append(key_case(r, st))
+    mode_sts, det_sts = state_tuples(MODES), state_tuples(DETS)
+    for i, ms in enumerate(mode_sts):
+        if all(v in ("absent", "filled") for v in ms.values()):
+            continue        # in (a)
+        st = dict(ms, **{DETS[i % 4]: "filled"})
+        n = sum(v != "absent" for v in ms.values())
+        for order in (("listed", "reversed") if n >= 2 else (None,)):
+            cases.append(key_case(r, st, order))
+    for i, ds in enumerate(det_sts):
+        if all(v in ("absent", "filled") for v in ds.values()):
+            continue
+        st = dict(ds, **{MODES[i % 3]: "filled"})
+        n = sum(v != "absent" for v in ds.values())
+        for order in (("listed", "reversed") if n >= 2 else (None,)):
+            cases.append(key_case(r, st, order))
+    # one mode key x one detector key, each filled / `key:` / `key: {}` (the documents that may load)
+    for mk in MODES:
+        for dk in DETS:
+            for msv in STATES[1:]:
+                for dsv in STATES[1:]:
+                    cases.append(key_case(r, {mk: msv, dk: dsv}))
+    if ctx.tier == "thorough":
+        for ms in mode_sts:
+            for ds in det_sts:
+                cases.append(key_case(r, dict(ms, **ds)))
+    else:
+        for _ in range(120):
+            cases.append(key_case(r, dict(r.choice(mode_sts), **r.choice(det_sts))))
+    seen, out = set(), []
+    for c in cases:
+        key = json.dumps([c["present"], c["states"]], sort_keys=True)
+        if key not in seen:
+            seen.add(key)
+            out.append(c)
+    return out
+
+
+def case_states(c) -> dict:
+    """key -> state of a keys case (cases of older replay files have no 'states': every present section is filled)"""
+    st = c.get("states") or {}
+    return {k: st.get(k, "filled") for k in c["present"]}
 
 
 def emit_keys_file(pairs) -> str:
     rows = []
     for c, o in pairs:
-        rows.append(f"ECase {core.clist(core.cstr(k) for k in c['present'])} {core.cbool(o['loaded'])} "
-                    f"{core.clist(core.cstr(k) for k in o.get('used', []))}")
+        doc = core.clist(f"({core.cstr(k)}, {SSTATE[v]})" for k, v in case_states(c).items())
+        rows.append(f"ECase {doc} {core.cbool(o['loaded'])} {core.clist(core.cstr(k) for k in o.get('used', []))}")
     body = ";\n  ".join(rows)
     return (HEAD + f"Definition cases : list ecase := [\n  {body}\n].\n"
-            "Eval vm_compute in e_mismatches src_checks cases.\nEval vm_compute in e_violations cases.\n")
+            "Eval vm_compute in e_mismatches src_checks_doc src_checks_built src_mode_dispatch src_detector_dispatch cases.\n"
+            "Eval vm_compute in e_violations cases.\n")
+
+
+def key_counts(c):
+    st = case_states(c)
+    return (sum(k in MODES for k in st), sum(k in DETS for k in st),
+            sum(k in MODES and v == "filled" for k, v in st.items()),
+            sum(k in DETS and v == "filled" for k, v in st.items()))
+
+
+def show_doc(c) -> str:
+    w = {"filled": "{...}", "null": "", "empty": "{}"}
+    return ", ".join(f"{k}: {w[v]}".rstrip() for k, v in case_states(c).items())
 
 
 def keys_violation(c, o) -> Violation:
-    nm = sum(k in MODES for k in c["present"])
-    nd = sum(k in DETS for k in c["present"])
-    sig = dict(clause="exactly_one", modes=min(nm, 2), detectors=min(nd, 2), loaded=bool(o.get("loaded")))
+    nm, nd, fm, fd = key_counts(c)
+    sig = dict(clause="exactly_one", modes=min(nm, 2), detectors=min(nd, 2), filled_modes=min(fm, 2),
+               filled_detectors=min(fd, 2), loaded=bool(o.get("loaded")))
     return Violation(clause="exactly_one", case=c, observed=o,
-                     expected="loaded iff exactly one running mode and exactly one detector; the present sections are used",
-                     what=f"document with {nm} running mode(s) and {nd} detector(s) "
-                          f"({', '.join(c['present'])}): loaded={o.get('loaded')} used={o.get('used')}", sig=sig)
+                     expected="loaded only if the document holds exactly one running-mode key and exactly one detector key "
+                              "(with several keys: at the very least never as another section than the only filled one); "
+                              "the sections that are present are the ones used; one filled mode + one filled detector loads",
+                     what=f"document with {nm} running-mode key(s) ({fm} filled) and {nd} detector key(s) ({fd} filled) "
+                          f"[{show_doc(c)}]: loaded={o.get('loaded')} used={o.get('used')}"
+                          + (f" ({o.get('exc')}: {o.get('msg')})" if not o.get("loaded") else ""), sig=sig)
+
+
+def gen_direct_cases(ctx: Ctx):
+    """every set of running-mode / detector objects handed to Configuration(...) directly"""
+    r = ctx.rng("direct")
+    cases = []
+    for m in range(8):
+        for d in range(16):
+            given = [MODES[i] for i in range(3) if m >> i & 1] + [DETS[i] for i in range(4) if d >> i & 1]
+            r.shuffle(given)
+            cases.append(dict(k="direct", given=given))
+    return cases
+
+
+def emit_direct_file(pairs) -> str:
+    rows = [f"CCase {core.clist(core.cstr(k) for k in c['given'])} {core.cbool(o['accepted'])}" for c, o in pairs]
+    body = ";\n  ".join(rows)
+    return (HEAD + f"Definition cases : list ccase := [\n  {body}\n].\n"
+            "Eval vm_compute in c_mismatches src_checks_built cases.\nEval vm_compute in c_violations cases.\n")
+
+
+def direct_violation(c, o) -> Violation:
+    nm = sum(k in MODES for k in c["given"])
+    nd = sum(k in DETS for k in c["given"])
+    return Violation(clause="exactly_one_built", case=c, observed=o,
+                     expected="Configuration(...) takes the objects iff exactly one running mode and exactly one detector "
+                              "are given, and then holds exactly these",
+                     what=f"Configuration(pipeline, {', '.join(c['given'])}) with {nm} running mode(s) and {nd} detector(s): "
+                          f"{'accepted' if o.get('accepted') else 'refused'}"
+                          + ("" if o.get("holds_given", True) else " but does not hold the given objects"),
+                     sig=dict(clause="exactly_one_built", modes=min(nm, 2), detectors=min(nd, 2),
+                              accepted=bool(o.get("accepted"))))
+
+
+def run_direct(ctx: Ctx, cases):
+    obs = run_driver(ctx, cases, workers=8)
+    pairs = []
+    for c, o in zip(cases, obs):
+        if "accepted" not in o:
+            ctx.broken.append(Broken("correspondence", "direct Configuration(...) driver: unexpected exception / crash",
+                                     str(o)[:400], c))
+            continue
+        pairs.append((c, o))
+    ev = eval_files(ctx, {"c_000": emit_direct_file(pairs)})["c_000"]
+    mism, viol = [], []
+    if ev is not None:
+        mism = [pairs[i] for i in core.parse_int_list(ev[0])]
+        viol = [pairs[i] for i in core.parse_int_list(ev[1])]
+    # accepted, but the configuration does not hold the objects it was given
+    viol += [(c, o) for c, o in pairs if o["accepted"] and not o.get("holds_given", True)
+             and not any(c is c2 for c2, _ in viol)]
+    for c, o in pairs:
+        ctx.count("evaluations")
+        ctx.count("direct_constructions")
+    return pairs, mism, viol
 
 
 # ------------------------------------------------------------------------------------------ settings
@@ -1140,11 +1338,9 @@ def run_guards(ctx: Ctx, cases, tag="g"):
                                      str(o)[:400], c))
             continue
         pairs.append((c, o))
-        if o["accepted"] and not o.get("stored", True):
-            ctx.violations.append(Violation(
-                clause="stored", case=c, observed=o, expected="an accepted value is the value of the setting",
-                what=f"{c['cls']}.{c['field']} via {c['path']}: value {show_value(c['x'])} accepted but not stored",
-                sig=dict(clause="stored", field=f"{c['cls']}.{c['field']}", path=c["path"])))
+        if o["accepted"] and not o.get("stored", True) and not coq_sees_stored(o):
+            # a sequence is compared element by element here; numbers are judged inside Coq (gcase_violates)
+            ctx.violations.append(stored_violation(c, o))
     per = 400
     files = {f"{tag}_{k // per:03d}": emit_guard_file(pairs[k:k + per]) for k in range(0, len(pairs), per)}
     ev = eval_files(ctx, files)
@@ -1171,16 +1367,23 @@ def run_keys(ctx: Ctx, cases):
             ctx.broken.append(Broken("correspondence", "keys driver crashed", str(o)[:400], c))
             continue
         pairs.append((c, o))
-    ev = eval_files(ctx, {"e_000": emit_keys_file(pairs)})["e_000"]
+    per = 400
+    files = {f"e_{k // per:03d}": emit_keys_file(pairs[k:k + per]) for k in range(0, len(pairs), per)}
+    ev = eval_files(ctx, files)
     mism, viol = [], []
-    if ev is not None:
-        mism = [pairs[i] for i in core.parse_int_list(ev[0])]
-        viol = [pairs[i] for i in core.parse_int_list(ev[1])]
+    for k, name in enumerate(sorted(files)):
+        if ev[name] is None:
+            continue
+        chunk = pairs[k * per:(k + 1) * per]
+        mism += [chunk[i] for i in core.parse_int_list(ev[name][0])]
+        viol += [chunk[i] for i in core.parse_int_list(ev[name][1])]
     for c, o in pairs:
         ctx.count("evaluations")
-        nm = sum(k in MODES for k in c["present"])
-        nd = sum(k in DETS for k in c["present"])
+        nm, nd, fm, fd = key_counts(c)
         ctx.dist("keys_modes_x_detectors", f"{min(nm, 2)}x{min(nd, 2)}")
+        ctx.dist("keys_filled_modes_of_present", f"{min(fm, 2)}/{min(nm, 2)}")
+        ctx.dist("keys_filled_detectors_of_present", f"{min(fd, 2)}/{min(nd, 2)}")
+        ctx.dist("keys_outcome", "loaded" if o["loaded"] else str(o.get("exc")))
     return pairs, mism, viol
 
 
@@ -1304,7 +1507,12 @@ def run(ctx: Ctx):
         "+-inf is judged as an extended real: inside exactly the documented intervals that have no bound on that side",
         "for a number carried by a numpy scalar the statement is one-directional (an out-of-range value is refused); a "
         "guard may be type-strict about an in-range one (Environment.wavelength setter)",
-        "integrality of row / col / adc_bit_resolution is not part of the documented range that is checked",
+        "integrality of row / col / adc_bit_resolution is not part of the documented range that is checked: a fractional "
+        "value inside the range may be accepted, but then it must be the value the field holds",
+        "a float in row / col through YAML may be refused by the frame allocation downstream of the guard "
+        "(Model.Config.alloc_strict): there the guard is compared one-directionally",
+        "an empty section (`key:` / `key: {}`) that is the only one of its group may be refused by its builder or loaded "
+        "with defaults (not judged); it must never be skipped in favour of, or hide, another section",
         "None is 'not specified': the constructor must take it iff the field is optional; no claim for setters",
         "row / col = +inf is not driven through YAML (the guard takes it as a number > 0, the frame allocation refuses it)",
         "documents use dyadic numbers so that every float operation of the loader is exact",
@@ -1322,7 +1530,7 @@ def run(ctx: Ctx):
     ctx.log(f"proof leg done; {len(gcases)} guard cases")
     gp, gm, gv = run_guards(ctx, gcases)
     ctx.log("guard leg done")
-    for c, o in gv:
+    for c, o in sorted(gv, key=lambda co: len(show_value(co[0]["x"]))):      # the simplest failing value first
         ctx.violations.append(guard_violation(c, o))
     for c, o in gm:
         ctx.broken.append(Broken("correspondence", "regenerated guard vs implementation",
@@ -1334,7 +1542,15 @@ def run(ctx: Ctx):
         ctx.violations.append(keys_violation(c, o))
     for c, o in km:
         ctx.broken.append(Broken("correspondence", "regenerated exactly-one checks vs pyxel.load",
-                                 f"keys {c['present']}: loaded={o.get('loaded')}", dict(case=c, observed=o)))
+                                 f"document [{show_doc(c)}]: loaded={o.get('loaded')} used={o.get('used')}; the "
+                                 f"translated loader says otherwise", dict(case=c, observed=o)))
+    cp, cm, cv = run_direct(ctx, gen_direct_cases(ctx))
+    for c, o in cv:
+        ctx.violations.append(direct_violation(c, o))
+    for c, o in cm:
+        ctx.broken.append(Broken("correspondence", "regenerated Configuration.__post_init__ checks vs Configuration(...)",
+                                 f"objects {c['given']}: accepted={o.get('accepted')}; the translated checks say otherwise",
+                                 dict(case=c, observed=o)))
     ctx.log("key leg done")
     scases = gen_settings_cases(ctx, ctx.budget(48, 240), ctx.budget(10, 40))
     sp, sbad = run_settings(ctx, scases)
@@ -1353,17 +1569,25 @@ def run(ctx: Ctx):
 
     seen = {json.dumps([c["cls"], c["field"], c["path"], c["x"]], sort_keys=True) for c, _ in gp
             if c["x"]["t"] != "none"}
-    ctx.cov["distinct_nontrivial"] = len(seen) + len(kp) + len(sp)
+    ctx.cov["distinct_nontrivial"] = len(seen) + len(kp) + len(cp) + len(sp)
     ctx.cov["rule"] = ("guard cases: distinct (field, path, value) with a value other than None (corpus of the formerly "
                        "failing inputs first; boundaries +-1 ulp, +-1, x2, x10, 0, -0, subnormal, 1e308, NaN, +-inf, integers "
                        "around the bounds, random; the same numbers carried by numpy int64/int32/float32/float64 scalars; "
-                       "sequences of length 0..4) for all 19 documented fields x 4 paths; key cases: all 128 subsets of "
-                       "the 3 mode and 4 detector keys; settings: distinct generated documents (4 detector types x 3 modes, "
+                       "sequences of length 0..4; for the integer-like quantities row / col / adc_bit_resolution also values "
+                       "that are not whole numbers - strictly between 0 and 1 and between each bound and the next integer) "
+                       "for all 19 documented fields x 4 paths, the value read back from the field compared inside Coq; "
+                       "key cases: all 128 subsets of the 3 mode and 4 detector keys with filled sections, every assignment "
+                       "of {absent, filled, `key:`, `key: {}`} to the mode keys (64) and to the detector keys (256) next to "
+                       "one filled section of the other group in both orders, and sampled (thorough: all 16384) "
+                       "assignments to both groups; settings: distinct generated documents (4 detector types x 3 modes, "
                        "optional keys present/absent, range expressions, times from a file, outputs, algorithm parameters, "
                        "probes and real models in the pipeline), each with 8 derived readouts and 2 sweep points")
-    ctx.cov["traces_validated_against_impl"] = len(gp) + len(kp) + len(sp)
-    ctx.cov["disagreements_checked"] = len(gm) + len(km)
-    ctx.cov["exhaustive"] = {"top_level_key_subsets": 128}
+    ctx.cov["traces_validated_against_impl"] = len(gp) + len(kp) + len(cp) + len(sp)
+    ctx.cov["disagreements_checked"] = len(gm) + len(km) + len(cm)
+    ctx.cov["exhaustive"] = {"top_level_key_subsets": 128, "mode_section_state_assignments": 64,
+                             "detector_section_state_assignments": 256}
+    if ctx.tier == "thorough":
+        ctx.cov["exhaustive"]["mode_x_detector_section_state_assignments"] = 16384
     for c, o in gp[:2] + kp[5:6]:
         ctx.sample(dict(case=c, observed=o))
     for c, o in sp[:1]:
@@ -1423,16 +1647,20 @@ def replay(ctx: Ctx, rp: dict) -> int:
         print("implementation now returns:", o)
         if "accepted" not in o:
             return 1
-        if rp.get("clause") == "stored":
-            bad = o["accepted"] and not o.get("stored", True)
-        else:
-            ok, ev, se = core.coq_eval(ctx, "replay", emit_guard_file([(case, o)]))
-            bad = ok and core.parse_int_list(ev[1]) != []
+        ok, ev, se = core.coq_eval(ctx, "replay", emit_guard_file([(case, o)]))
+        bad = (ok and core.parse_int_list(ev[1]) != []) or bool(o["accepted"] and not o.get("stored", True))
     elif k == "keys":
         o = core.run_driver(ctx, "c12", [case], workers=1)[0]
         print("implementation now returns:", o)
         ok, ev, se = core.coq_eval(ctx, "replay", emit_keys_file([(case, o)]))
         bad = ok and core.parse_int_list(ev[1]) != []
+    elif k == "direct":
+        o = core.run_driver(ctx, "c12", [case], workers=1)[0]
+        print("implementation now returns:", o)
+        if "accepted" not in o:
+            return 1
+        ok, ev, se = core.coq_eval(ctx, "replay", emit_direct_file([(case, o)]))
+        bad = (ok and core.parse_int_list(ev[1]) != []) or (o["accepted"] and not o.get("holds_given", True))
     elif k == "sweeprun":
         o = core.run_driver(ctx, "c12", [case], workers=1)[0]
         print("implementation now returns:", json.dumps(o)[:1500])
@@ -1474,12 +1702,22 @@ META = dict(
         "refuse every out-of-range number whatever carries it (numpy.int64/int32/float32 scalars included); decided by a "
         "reflective checker over half-lines proved sound for all inputs (the 28 defects of the unrepaired tree that refuted "
         "this statement were repaired by fix: commits; a regression makes the theorem fail and is reported with a concrete "
-        "input). EXACTLY-ONE: the regenerated count checks of the loader accept a key set iff it has exactly one mode and one "
-        "detector (all key sets). SETTINGS: the document->settings map is lossless and derived objects "
+        "input). STORED (C12_stored_is_written, C12_accepted_is_kept_in_range): what each constructor / setter keeps of the "
+        "value is regenerated too (`self._f = f`, `float(f)`, `int(f)` ...); for every documented field and every value, the "
+        "value that is kept is the value that was given, hence inside the documented range (a truncating store fails the "
+        "theorem). EXACTLY-ONE (C12_exactly_one, _two_sections_refused, _uses_it, _built): for EVERY assignment of "
+        "{absent, `key:`, `key: {}`, filled} to the top-level keys, the regenerated loader (count checks WITH their way of "
+        "counting a section, order of the if/elif chains, checks of Configuration.__post_init__) hands sections m, d to their "
+        "builders iff m is the only mode key and d the only detector key present - an empty section is never skipped in "
+        "favour of, and never hides, another one; Configuration(...) called directly takes the objects iff exactly one of "
+        "each is given. SETTINGS: the document->settings map is lossless and derived objects "
         "(Readout.replace, regenerated list of carried settings; setters; sweep points) keep every setting that was not "
         "changed - theorems about a structural MODEL. That the code behaves like the tables/model is established by "
-        "correspondence (= testing): every field x 4 paths (constructor, YAML, attribute, Processor.set) on boundary/"
-        "out-of-range/NaN/inf/None/numpy-carried values, all 128 subsets of mode/detector keys through pyxel.load, generated "
+        "correspondence (= testing): every field x 6 paths (constructor, from_dict, YAML, attribute, Processor.set, a real "
+        "observation run) on boundary/out-of-range/NaN/inf/None/numpy-carried values and - for row/col/adc_bit_resolution - "
+        "values that are not whole numbers, the value read back from the field compared inside Coq; all 128 subsets of "
+        "mode/detector keys and every assignment of section states to the mode keys and to the detector keys through "
+        "pyxel.load (both file orders), all 128 sets of objects through Configuration(...); generated "
         "documents over 4 detectors x 3 modes (readout incl. times_from_file, outputs, parameters, every Algorithm parameter, "
         "fitness arguments ...) read back leaf by leaf and compared inside Coq and with the same objects built in Python, "
         "derived readouts / sweep points compared inside Coq, run_mode on YAML-built vs Python-built objects, and dask "
@@ -1490,7 +1728,9 @@ META = dict(
         "preserved, derived objects, run equality) is testing of pyxel.load / Readout.replace / Processor.replace against a "
         "proved model, not a proof about the code. The checker is sound but incomplete (a guard written as a union of "
         "intervals would be reported as unchecked). Integrality of row/col/adc_bit_resolution is not part of the checked "
-        "range; a guard may be type-strict about in-range numpy scalars."),
+        "range (a fractional value inside the range may be accepted or refused; if accepted it must be what the field "
+        "holds); a guard may be type-strict about in-range numpy scalars. An empty section that is the only one of its "
+        "group may be refused by its builder or loaded with defaults (not judged)."),
     technique="Coq proof over regenerated guard tables (reflective interval checker) + in-Coq correspondence/spec evaluation",
     design_ref="DESIGN.md section 6, C12",
 )
